@@ -248,8 +248,7 @@ func c08TokenShapes(src []byte) []c08Shape {
 		}
 		// a free-standing comment (followed by an empty line) as the first thing in a struct body:
 		// `{\n// c\n\nx: 1\n}` (v2 makes it the doc comment of the first element)
-		if nn >= 0 && pn >= 0 && toks[pn].tok == token.LBRACE && gapNL(pn, pn+1) && nn > 0 &&
-			bytes.Count(src[toks[nn-1].end:toks[nn].off], []byte("\n")) >= 2 {
+		if nn >= 0 && pn >= 0 && toks[pn].tok == token.LBRACE && gapNL(pn, pn+1) && hasBlankLine(src[toks[pn+1].end:toks[nn].off]) {
 			add("free-comment-first-in-struct-body", i)
 		}
 		// two comment groups separated by an empty line as the last things before a closing brace:
@@ -447,4 +446,22 @@ func c08IrregularCommentsCharacterised(src []byte) bool {
 		}
 	}
 	return true
+}
+
+// hasBlankLine: the text contains an empty (blank-only) line.
+func hasBlankLine(b []byte) bool {
+	nl := false
+	for _, ch := range b {
+		switch ch {
+		case '\n':
+			if nl {
+				return true
+			}
+			nl = true
+		case ' ', '\t', '\r':
+		default:
+			nl = false
+		}
+	}
+	return false
 }
